@@ -70,6 +70,31 @@ func c03Gen(tier string, r *rand.Rand) []Case {
 			}
 		}
 	}
+	// batches longer than 256 (index arithmetic in the C layer must not be narrower than int): a swapped
+	// pair at distance 256 / 255 / 1 and a cancelling pair s_i+d, s_j-d at distance 256, compared index by
+	// index with individual verification (too long for the Coq tree evaluation: judged by the runner)
+	for _, n := range []int{257, 300} {
+		if tier != "thorough" && n == 300 {
+			continue
+		}
+		for _, dist := range []int{256, 255, 1} {
+			lv := make([]c03Leaf, n)
+			xs := make([]*big.Int, n)
+			for i := range lv {
+				xs[i] = rsc()
+				lv[i] = good(xs[i])
+			}
+			i := r.IntN(n - dist)
+			j := i + dist
+			if r.IntN(2) == 0 {
+				lv[i], lv[j] = c03Leaf{"good", h32(xs[j]), h32(xs[i])}, c03Leaf{"good", h32(xs[i]), h32(xs[j])}
+			} else {
+				d := rsc()
+				lv[i], lv[j] = off(xs[i], d), off(xs[j], new(big.Int).Sub(blsR, d))
+			}
+			add("api-large", "api-large", lv, nil)
+		}
+	}
 	// every assignment of {valid, wrong but well formed, malformed (right length), outside G1} to the
 	// positions, n <= 4: malformed entries are pre-marked INVALID by the C layer and must stay so even when
 	// the descent reaches their leaf because a sibling is wrong
@@ -303,6 +328,15 @@ func c03Run(c Case) (Result, error) {
 		if v, e := crypto.BatchVerifyBLSSignaturesOneMessage(bp, sigs, msg, hs); !crypto.IsNotBLSKeyError(e) || !allFalse(v) || len(v) != n {
 			return Result{}, implViolation("non-BLS key at index %d of %d: error %v, results %v (documented: notBLSKey error, every result false)", pos, n, e, v)
 		}
+	}
+	if in.Mode == "api-large" {
+		for i := range out {
+			ind, _ := pks[i].Verify(sigs[i], msg, hs)
+			if ind != out[i] {
+				return Result{}, implViolation("batch of %d: index %d reported %v by BatchVerifyBLSSignaturesOneMessage, %v by Verify", n, i, out[i], ind)
+			}
+		}
+		return Result{Coq: "ApiCase [] [] []", Key: string(c.Input), Nontrivial: true, Obs: map[string]any{"n": n, "agrees_with_individual_verification": true}}, nil
 	}
 	var obs []string
 	for i := range out {
